@@ -154,10 +154,12 @@ Lemma r_wlist_c minw l : r_wlist minw (c_wlist l) = w_wlist minw l.
 Proof.
   unfold r_wlist, w_wlist, c_wlist, r_count, w_len. cbn [snd]. rewrite map_length, forallb_map. f_equal.
 Qed.
+Lemma r_str_c s : r_str (c_str s) = w_str s.
+Proof. unfold r_str, w_str, c_str. cbn [s_bytes]. unfold I_MAX, W_INT_MAX. reflexivity. Qed.
 Lemma c_dir_range first c : is_dir c = true -> dir_in_range (c_dir first c) = wf_call c.
 Proof.
   intros Hd. destruct c; cbn [is_dir] in Hd; try discriminate Hd; cbn [c_dir dir_in_range wf_call];
-    rewrite ?r_wlist_c;
+    rewrite ?r_wlist_c, ?r_str_c;
     repeat match goal with
            | |- context [r_list r_atom (c_list ?l)] => rewrite (r_list_c r_atom w_atom l) by reflexivity
            | |- context [r_list r_lit (c_list ?l)] => rewrite (r_list_c r_lit w_lit l) by reflexivity
@@ -210,7 +212,7 @@ Lemma write_flatten inc ss : write_prog (flatten inc ss) = write_call (CInit inc
 Proof.
   unfold write_prog, flatten. cbn [flat_map]. f_equal.
   induction ss as [|ds ss IH]; [reflexivity|]. cbn [flat_map]. rewrite flat_map_app. rewrite IH.
-  unfold write_step. cbn [flat_map write_call app]. rewrite app_nil_r, <- !app_assoc. reflexivity.
+  unfold write_step. cbn [flat_map write_call app]. rewrite flat_map_app. cbn [flat_map write_call app]. reflexivity.
 Qed.
 
 Lemma write_render inc ss : ss <> [] -> forallb (forallb is_dir) ss = true -> forallb (forallb wf_call) ss = true ->
@@ -308,5 +310,5 @@ Qed.
 Theorem c01_modes_lemma t : read_incr t = read_all t.
 Proof.
   unfold read_incr, read_all, read_with.
-  destruct (read_header (a_init t)) as [cs [[inc|] s|ln]]; try reflexivity. rewrite modes_loop. reflexivity.
+  destruct (read_header (a_init t)) as [cs [[inc|] s|ln]]; try reflexivity.
 Qed.
